@@ -86,13 +86,45 @@ def determinism(prop_names, seed, repo, jobs, count):
                 print('HARNESS-ERROR selftest determinism %s: %s' % (prop, b.errors[0][-300:]))
                 return 2
             digs.append(dict((i, _digest(b.results[i])) for i in sorted(b.results)))
-        diff = [i for i in digs[0] if digs[0][i] != digs[1].get(i)]
-        print('selftest determinism %s: %d scenarios x2 (jobs %d vs %d), %d diverged'
-              % (prop, len(digs[0]), jobs, max(1, jobs // 4), len(diff)))
-        if diff:
+        # third pass: worker interpreters under another PYTHONHASHSEED
+        b = master.Batch(prop, 'quick', seed, repo, jobs, count=count)
+        b.hashseeds = (4242 + seed, b.hashseeds[1])
+        orig = b.make_scenario
+
+        def mk(i, orig=orig, hs=list(master.hashseed_pair(seed))):
+            sc = orig(i)
+            sc['hashseeds'] = hs          # keep the scenario itself identical
+            return sc
+        b.make_scenario = mk
+        b.run()
+        if b.errors:
+            print('HARNESS-ERROR selftest determinism %s: %s' % (prop, b.errors[0][-300:]))
+            return 2
+        digs.append(dict((i, _digest(b.results[i])) for i in sorted(b.results)))
+        diff = [i for i in digs[0] if digs[0][i] != digs[1].get(i) or digs[0][i] != digs[2].get(i)]
+        # scenario generation under another hash seed, in a fresh interpreter
+        gen = _gen_digest(prop, seed, count, '0') == _gen_digest(prop, seed, count, '98765')
+        print('selftest determinism %s: %d scenarios x3 (jobs %d / %d / %d with worker '
+              'PYTHONHASHSEED %d), %d diverged; generation under two hash seeds %s'
+              % (prop, len(digs[0]), jobs, max(1, jobs // 4), jobs, b.hashseeds[0], len(diff),
+                 'identical' if gen else 'DIFFERS'))
+        if diff or not gen:
             print('  diverging scenario indices: %s' % diff[:10])
             rc = 2
     return rc
+
+
+def _gen_digest(prop, seed, count, hashseed):
+    import subprocess
+    here = os.path.dirname(os.path.dirname(os.path.abspath(__file__)))
+    code = ("import sys, json, hashlib; sys.path.insert(0, %r); from tsim import master, props;"
+            "m = props.get(%r); h = hashlib.sha1();"
+            "[h.update(json.dumps(m.generate(master.scenario_seed(%d, %r, i), 'quick'), "
+            "sort_keys=True, default=repr).encode()) for i in range(%d)]; print(h.hexdigest())"
+            % (here, prop, seed, prop, count))
+    env = dict(os.environ, PYTHONHASHSEED=hashseed, PYTHONDONTWRITEBYTECODE='1')
+    return subprocess.run([sys.executable, '-c', code], capture_output=True, text=True,
+                          env=env).stdout.strip()
 
 
 def main(args, seed, repo, jobs, tier):
